@@ -145,7 +145,7 @@ def template_cones(ck, dag, date, n, fname, kinds):
         guards = [g for g, kk, w in (ctxn.errors if ctxn else [])]
         if not guards:
             continue
-        r, m = ck.solve(cone.valid() + cone.ancestors_ok(n) + [z3.Or(guards)], 120)
+        r, m = rulebank.ladder(ck, cone.valid() + cone.ancestors_ok(n), z3.Or(guards), cone.syms, (20, 60))
         if r != "sat":
             continue
         df = cone.dataframe(m)
